@@ -363,23 +363,23 @@ Definition rk_to_interval := @fs_to_interval Z Z.compare.
 (* ------------------------------------------------------------------ arithmetic on end points: extended rationals *)
 Local Open Scope Z_scope.
 
-Inductive xq := XMinf | XFin (q : rat) | XPinf.
+Inductive xq := XQMinf | XQFin (q : rat) | XQPinf.
 
 Definition xq_cmp (x y : xq) : comparison :=
   match x, y with
-  | XMinf, XMinf => Eq
-  | XMinf, _ => Lt
-  | _, XMinf => Gt
-  | XPinf, XPinf => Eq
-  | XPinf, _ => Gt
-  | _, XPinf => Lt
-  | XFin p, XFin q => Z.compare (fst p * snd q) (fst q * snd p)    (* sign of q_cmp *)
+  | XQMinf, XQMinf => Eq
+  | XQMinf, _ => Lt
+  | _, XQMinf => Gt
+  | XQPinf, XQPinf => Eq
+  | XQPinf, _ => Gt
+  | _, XQPinf => Lt
+  | XQFin p, XQFin q => Z.compare (fst p * snd q) (fst q * snd p)    (* sign of q_cmp *)
   end.
 
-Definition xq_is_infinity (x : xq) : bool := match x with XFin _ => false | _ => true end.
-Definition xq_is_integer (x : xq) : bool := match x with XFin q => q_is_integer q | _ => false end.
-Definition xq_ceiling (x : xq) : Z := match x with XFin q => q_ceiling q | _ => 0 end.   (* assert(0) on infinities: never reached *)
-Definition xq_floor (x : xq) : Z := match x with XFin q => q_floor q | _ => 0 end.
+Definition xq_is_infinity (x : xq) : bool := match x with XQFin _ => false | _ => true end.
+Definition xq_is_integer (x : xq) : bool := match x with XQFin q => q_is_integer q | _ => false end.
+Definition xq_ceiling (x : xq) : Z := match x with XQFin q => q_ceiling q | _ => 0 end.   (* assert(0) on infinities: never reached *)
+Definition xq_floor (x : xq) : Z := match x with XQFin q => q_floor q | _ => 0 end.
 
 Definition LONG_MAX : Z := 9223372036854775807.
 Definition LONG_MIN : Z := -9223372036854775808.
